@@ -81,7 +81,46 @@ pub fn tier(tier: &str, only_maintenance: bool) -> Tier {
             }
         }
     }
-    let describe = format!("{}; plus the deep family: both maintenance bases x 4 cost models x <=3 trips with demand in {{0 passengers, 2 vehicles}}", describe);
+    // track-hungry family (all tiers): one slot x 4 tracks with a maximal distance of a fifth of a trip (every
+    // track is handed out and must carry a vehicle) under every depot model x <=2 trips
+    {
+        let mut seen: std::collections::HashSet<Inst> = insts.iter().cloned().collect();
+        for depots in 0..DIMS[D_DEPOTS].1 {
+            let mut cfg = BASE0;
+            cfg[D_MAINT] = 6;
+            cfg[D_MAXDIST] = 3;
+            cfg[D_DEPOTS] = depots;
+            for trips in trip_multisets(&catalogue(&cfg), 2) {
+                let i = Inst { cfg, trips };
+                if seen.insert(i.clone()) {
+                    insts.push(i);
+                }
+            }
+        }
+    }
+    // rich family (all tiers): <=1 deviation from the rich base (two types, two-segment routes limited on the
+    // first segment only, dead-head shunting, a depot with mixed per-type limits, two co-located locations,
+    // a two-track slot) x <=2 trips; quick: demand levels {0, 2 vehicles}; thorough: all four levels, plus
+    // three trips that all need two vehicles
+    {
+        let mut seen: std::collections::HashSet<Inst> = insts.iter().cloned().collect();
+        for cfg in configs(BASE4, 1) {
+            let full = catalogue(&cfg);
+            let two: Vec<Trip> = full.iter().copied().filter(|t| t.dem == 0 || t.dem == 2).collect();
+            let mut sets = if tier == "thorough" { trip_multisets(&full, 2) } else { trip_multisets(&two, 2) };
+            if tier == "thorough" {
+                let only2: Vec<Trip> = full.iter().copied().filter(|t| t.dem == 2).collect();
+                sets.extend(trip_multisets(&only2, 3).into_iter().filter(|m| m.len() == 3));
+            }
+            for trips in sets {
+                let i = Inst { cfg, trips };
+                if seen.insert(i.clone()) {
+                    insts.push(i);
+                }
+            }
+        }
+    }
+    let describe = format!("{}; plus the deep family: both maintenance bases x 5 cost models x <=3 trips with demand in {{0 passengers, 2 vehicles}}; plus the track-hungry family: one slot x 4 tracks, maximalDistance 10 km, every depot model x <=2 trips; plus the rich family: <=1 deviation from the rich base (types A+B, two-segment routes limited on the first segment only, dead-head shunting 300 s, one depot of total 2 with mixed per-type limits, L1 and L2 co-located, two-track slot with binding maximalDistance) x <=2 trips ({})", describe, if tier == "thorough" { "all demand levels, plus 3 trips needing two vehicles each" } else { "demand in {0 passengers, 2 vehicles}" });
     if only_maintenance {
         insts.retain(|i| i.has_maintenance());
     }
